@@ -14,7 +14,7 @@ from props.listener_world import World, hexs, parse_stdin, DocAutomaton
 ID = 'C10'
 LEAN_PROPS = 'SupervisorModel.Props.C10'
 DRIVER = 'drv_c10'
-GENERATED = ['Listener']
+GENERATED = ['Listener', 'Events', 'Pool']
 TRUSTED = [
     "modelled, not verified: CPython int(bytes) (Listener.parseInt: Py_ISSPACE strip, sign, digits with single "
     "underscores, 4300-digit limit) -- exercised against the real int() by the correspondence population",
